@@ -10,7 +10,9 @@ import (
 	sdk "github.com/cosmos/cosmos-sdk/types"
 
 	"github.com/comdex-official/comdex/x/auctionsV2"
+	auctionv1types "github.com/comdex-official/comdex/x/auction/types"
 	auctypes "github.com/comdex-official/comdex/x/auctionsV2/types"
+	liqv1types "github.com/comdex-official/comdex/x/liquidation/types"
 	lendtypes "github.com/comdex-official/comdex/x/lend/types"
 	liqV2types "github.com/comdex-official/comdex/x/liquidationsV2/types"
 )
@@ -33,6 +35,12 @@ func c08CloseSetup(t *testing.T, f *c08Fix, ctx sdk.Context) {
 	}
 	fund(t, a, ctx, c08Bidder(), cs)
 	fund(t, a, ctx, c08Funder(), cs)
+	// generation 1 (x/liquidation MsgLiquidateBorrow is still routed): auction parameters of the lend app
+	if err := a.LendKeeper.AddAuctionParamsData(ctx, lendtypes.AuctionParams{AppId: f.app, AuctionDurationSeconds: 3600, Buffer: c08Dec("1.2"),
+		Cusp: c08Dec("0.7"), Step: sdk.NewInt(360), PriceFunctionType: 1, DutchId: 3, BidDurationSeconds: 3600}); err != nil {
+		t.Fatal(err)
+	}
+	a.LiquidationKeeper.SetParams(ctx, liqv1types.NewParams(100))
 	// the app's reserve tops the auction up when the collateral is exhausted before the target debt is met
 	for j := 0; j < 4; j++ {
 		if class, err, _ := execMsg(a, ctx, liqV2types.NewMsgAppReserveFundsRequest(c08Funder().String(), f.app, f.assets[j],
@@ -149,6 +157,42 @@ func c08RepayWithdrawLine(f *c08Fix, ctx sdk.Context, un int, us string, b lendt
 		ipb = c08Ipb(f, cc, b.LendingID)
 	}
 	return fmt.Sprintf("repaywithdraw %d %d %s %s", un, b.ID, e, ipb)
+}
+
+// the ENV of a generation-1 hand-over (x/liquidation MsgLiquidateBorrow), measured on a dry run of the message
+// itself: result d (0 ok without hand-over, 1 handed over, 2 error, 3 panic), interest added, coins sent to the
+// generation-1 auction module account, penalty sent to the reserve, total deduction (= cTokens burnt)
+func c08V1Env(f *c08Fix, ctx sdk.Context, id uint64, msg sdk.Msg) string {
+	a := f.a
+	k := a.LendKeeper
+	b0, found := k.GetBorrow(ctx, id)
+	if !found {
+		return fmt.Sprintf("handoverv1 %d 2 0 0 0 0", id)
+	}
+	pair, _ := k.GetLendPair(ctx, b0.PairID)
+	rin, _ := k.GetAssetRatesParams(ctx, pair.AssetIn)
+	din, cden := f.idDenom[pair.AssetIn], f.idDenom[rin.CAssetID]
+	cc, _ := ctx.CacheContext()
+	var err error
+	pn := true
+	if h := a.MsgServiceRouter().Handler(msg); h != nil {
+		pn, _ = safely(func() { _, err = h(cc, msg) })
+	}
+	switch {
+	case pn:
+		return fmt.Sprintf("handoverv1 %d 3 0 0 0 0", id)
+	case err != nil:
+		return fmt.Sprintf("handoverv1 %d 2 0 0 0 0", id)
+	}
+	b1, _ := k.GetBorrow(cc, id)
+	if !b1.IsLiquidated {
+		return fmt.Sprintf("handoverv1 %d 0 0 0 0 0", id)
+	}
+	v1mod := modAddr(auctionv1types.ModuleName)
+	return fmt.Sprintf("handoverv1 %d 1 %s %s %s %s", id, b1.InterestAccumulated.Sub(b0.InterestAccumulated).BigInt(),
+		bal(a, cc, v1mod, din).Sub(bal(a, ctx, v1mod, din)),
+		bal(a, cc, modAddr(lendtypes.ModuleName), din).Sub(bal(a, ctx, modAddr(lendtypes.ModuleName), din)),
+		supply(a, ctx, cden).Sub(supply(a, cc, cden)))
 }
 
 func c08FundAmount(cr *rng) *big.Int {
